@@ -464,7 +464,385 @@ def obligations(tier):
                         cx.close(np.array([out[0] * nrm, out[1] * nrm], dtype=object), v * (1.01 if wrong else 1.0), label=f'trajectory[{name}] branch {k}: out*sqrt(w_k) == K_k psi')
                 lo = hi
 
+    obs.extend(_qudit_reset_obligations(tier))
+    obs.extend(_moment_obligations(tier))
     obs.append(Obligation('trajectory.one_qubit', traj_body, twin=lambda cx: traj_body(cx, wrong=True), opts={'weight': 6, 'vc_timeout_ms': 60000}, desc='cirq.act_on(channel, StateVectorSimulationState) with a SCRIPTED generator: for mixtures the requested probability vector equals the documented one and branch k applies U_k; for Kraus channels the branch selected by the symbolic uniform draw r is the one whose cumulative-weight interval contains r and the state is K_k psi / sqrt(w_k); input state normalised by construction (2 symbolic angles)'))
+    return obs
+
+
+
+# ---- helpers of the qudit-reset and moment-description obligations ------------------------------------------------
+def _embed_dims(K, pos, dims):
+    """K (on the qudits at positions `pos`, big-endian) embedded into the register with dimensions `dims`"""
+    return EM.embed_matrix(np.asarray(K, dtype=object), list(pos), len(dims), dims=list(dims))
+
+
+def _apply_kraus_dims(ks, rho, pos, dims):
+    tot = None
+    for K in ks:
+        Kf = _embed_dims(K, pos, dims)
+        term = _matmul(_matmul(Kf, rho), dag(Kf))
+        tot = term if tot is None else tot + term
+    return tot
+
+
+def _sym_density(cx, N, prefix='R', unit_trace=False):
+    """N x N matrix of arbitrary complex entries; the diagonal is real in [0, 1] (documented domain of a density
+    matrix; np.clip(probs, 0) of the measurement code is the identity there); with unit_trace the last diagonal
+    entry is 1 - (sum of the others), so that the trace is 1 syntactically"""
+    rho = np.empty((N, N), dtype=object)
+    acc = 0
+    for i in range(N):
+        for j in range(N):
+            if i == j:
+                if unit_trace and i == N - 1:
+                    rho[i, i] = (1 - acc) + 0j
+                else:
+                    v = cx.real(f'{prefix}d{i}', 0.0, 1.0)
+                    acc = acc + v
+                    rho[i, i] = v + 0j
+            else:
+                rho[i, j] = cx.real(f'{prefix}{i}_{j}r', -1.0, 1.0) + 1j * cx.real(f'{prefix}{i}_{j}i', -1.0, 1.0)
+    return rho
+
+
+def _inject_dm_state(cx, cirq, rho, qs, prng=None, classical_data=None):
+    """DensityMatrixSimulationState whose tensor is the symbolic rho (the constructor validates with eigvalsh:
+    the state object is built from a basis state and the tensor is injected, as in checks/C02)"""
+    dims = tuple(q.dimension for q in qs)
+    kw = {} if classical_data is None else {'classical_data': classical_data}
+    st = cirq.DensityMatrixSimulationState(initial_state=0, qubits=qs, prng=prng, dtype=np.complex128, **kw)
+    t = np.asarray(rho, dtype=object).reshape(dims + dims)
+    if cx.mode != 'concrete':
+        from symx.proxy import wrap
+
+        st._state._density_matrix = wrap(t.copy())
+    else:
+        st._state._density_matrix = t.astype(np.complex128)
+    return st
+
+
+def _as_state(cx, psi):
+    if cx.mode != 'concrete':
+        from symx.proxy import wrap
+
+        return wrap(np.asarray(psi, dtype=object).copy())
+    return np.asarray(psi).astype(np.complex128)
+
+
+def _qudit_reset_obligations(tier):
+    import cirq
+
+    from checks.C02 import make_prng, total_weight
+
+    obs = []
+    DIMS1 = (2, 3, 4)
+
+    # ---- E2: reset of ONE qudit with every level populated: exact unravelling of the documented Kraus set ------------
+    def qreset1_body(cx, wrong=False):
+        from symx.snum import sqrt
+
+        d = DIMS1[cx.choose('dim', len(DIMS1))]
+        q = cirq.LineQid(0, dimension=d)
+        psi = EM.sym_tensor(cx, (d,), 'A')
+        prng = make_prng(cx)
+        route = cx.choose('route', 2)
+        op = cirq.ResetChannel(dimension=d).on(q) if route == 0 else cirq.reset(q)
+        cx.check(cirq.reset(q) == cirq.ResetChannel(dimension=d).on(q), label='cirq.reset(qudit) is ResetChannel(dimension of the qudit)')
+        if route == 0:
+            st = cirq.StateVectorSimulationState(initial_state=psi.copy(), qubits=[q], prng=prng, dtype=np.complex128)
+            cirq.act_on(op, st)
+            out = np.asarray(st.target_tensor, dtype=object).reshape(-1)
+        else:
+            res = cirq.Simulator(seed=prng, dtype=np.complex128).simulate(cirq.Circuit(op), initial_state=psi.copy(), qubit_order=[q])
+            out = np.asarray(res.final_state_vector, dtype=object).reshape(-1)
+        kdoc = D.kraus_reset(d)
+        got = cirq.kraus(op)
+        cx.check(len(got) == d, label=f'd={d}: cirq.kraus(reset) has d operators')
+        for a, b in zip(got, kdoc):
+            cx.close(np.asarray(a, dtype=object), np.asarray(b, dtype=object), label=f'd={d}: cirq.kraus(reset)[k] == |0><k|')
+        cx.check(len(prng.log) == 1, label=f'd={d}: reset of a qudit draws exactly once')
+        pvec, k = prng.log[0]
+        tot = total_weight(psi)
+        ws = [_re(psi[j] * _cj(psi[j])) for j in range(d)]
+        exp_p = [w / tot for w in ws]
+        if wrong:
+            exp_p = exp_p[1:] + exp_p[:1]
+        cx.close(np.array(pvec, dtype=object), np.array(exp_p, dtype=object), label=f'd={d}: branch probabilities == tr(K_k rho K_k^dag) for every level')
+        pk = ws[k] / tot
+        r = sqrt(pk) if cx.mode != 'concrete' else np.sqrt(pk)
+        vk = _matmul(np.asarray(kdoc[k], dtype=object), np.asarray(psi, dtype=object).reshape(d, 1)).reshape(-1)
+        cx.close(out * r, vk, label=f'd={d} route={route}: post state * sqrt(p_k) == K_k psi (qudit back in |0>, phase of the populated level kept)')
+
+    obs.append(Obligation('trajectory.qudit_reset', qreset1_body, twin=lambda cx: qreset1_body(cx, wrong=True), expected=(ZeroDivisionError,), opts={'weight': 6}, desc='reset of ONE qudit (d = 2, 3, 4; cirq.ResetChannel(d).on(q) and cirq.reset(q)) in state-vector trajectories (cirq.act_on on a StateVectorSimulationState and cirq.Simulator.simulate), ALL d complex amplitudes symbolic, scripted generator: one draw, requested probability of EVERY level == |psi_k|^2 / <psi|psi>, post state * sqrt(p_k) == K_k psi with K_k = |0><k|, cirq.kraus(reset) == the documented operators'))
+
+    # ---- E3: the same channel in mixed-state simulation on an arbitrary symbolic density matrix ------------------------
+    DM_SHAPES = [((3,), 0), ((4,), 0), ((3, 2), 0), ((3, 2), 1), ((2, 3), 1)] + ([((3, 3), 0), ((2, 4), 1)] if tier != 'quick' else [])
+
+    def qreset_dm_body(cx, wrong=False):
+        dims, tgt = DM_SHAPES[cx.choose('shape', len(DM_SHAPES))]
+        n = len(dims)
+        N = int(np.prod(dims))
+        qs = [cirq.LineQid(i, dimension=dd) for i, dd in enumerate(dims)]
+        d = dims[tgt]
+        op = cirq.ResetChannel(dimension=d).on(qs[tgt])
+        route = cx.choose('route', 4 if n > 1 else 3)
+        rho = _sym_density(cx, N, unit_trace=(route == 3))
+        kdoc = D.kraus_reset(d)
+        exp = _apply_kraus_dims([perturb(kdoc[0])] + list(kdoc[1:]) if wrong else kdoc, rho, [tgt], dims)
+        if route == 0:  # cirq.apply_channel on the tensor
+            T = _as_state(cx, rho.reshape(dims + dims))
+            bval = cx.real('Bv', -1.0, 1.0) + 1j * cx.real('Bw', -1.0, 1.0)
+            bufs = []
+            for _ in range(3):
+                bb = np.empty(dims + dims, dtype=object)
+                bb[...] = bval
+                bufs.append(_as_state(cx, bb))
+            args = cirq.ApplyChannelArgs(target_tensor=T, out_buffer=bufs[0], auxiliary_buffer0=bufs[1], auxiliary_buffer1=bufs[2], left_axes=(tgt,), right_axes=(n + tgt,))
+            got = np.asarray(cirq.apply_channel(op, args), dtype=object).reshape(N, N)
+        elif route == 1:  # act_on on the simulation state
+            st = _inject_dm_state(cx, cirq, rho, qs)
+            cirq.act_on(op, st)
+            got = np.asarray(st.target_tensor, dtype=object).reshape(N, N)
+        else:  # the simulator; route 3: product-state container, the reset qudit is factored out afterwards
+            if route == 2:
+                init = _inject_dm_state(cx, cirq, rho, qs)
+            else:
+                cd = cirq.ClassicalDataDictionaryStore()
+                st = _inject_dm_state(cx, cirq, rho, qs, classical_data=cd)
+                empty = cirq.DensityMatrixSimulationState(initial_state=0, qubits=(), dtype=np.complex128, classical_data=cd)
+                m = {qq: st for qq in qs}
+                m[None] = empty
+                init = cirq.SimulationProductState(m, qs, True, classical_data=cd)
+            sim = cirq.DensityMatrixSimulator(dtype=np.complex128, split_untangled_states=(route == 3))
+            res = sim.simulate(cirq.Circuit(op), initial_state=init, qubit_order=qs)
+            got = np.asarray(res.final_density_matrix, dtype=object).reshape(N, N)
+        cx.close(got, exp, label=f'dims={dims} target={tgt} route={route}: reset of a qudit == sum_k |0><k| rho |k><0| on that qudit')
+
+    obs.append(Obligation('dm_simulate.qudit_reset', qreset_dm_body, twin=lambda cx: qreset_dm_body(cx, wrong=True), opts={'weight': 6}, desc='cirq.ResetChannel(d) on a qutrit / ququart alone and inside 2-qudit registers of mixed dimensions ((3,2), (2,3); thorough also (3,3), (2,4)), ARBITRARY symbolic density matrix (real diagonal in [0,1]): cirq.apply_channel, cirq.act_on(DensityMatrixSimulationState), DensityMatrixSimulator.simulate and the product-state container with split_untangled_states (unit trace made syntactic there) all equal sum_k K_k rho K_k^dag with the documented K_k = |0><k| embedded on the target'))
+
+    # ---- E4: reset inside 2-qudit product / entangled state vectors, split_untangled_states on/off ---------------------
+    SV_SHAPES = [((3, 2), 0), ((3, 2), 1), ((2, 3), 1)] + ([((3, 3), 0), ((4, 2), 0)] if tier != 'quick' else [])
+
+    def qreset2_body(cx, wrong=False):
+        from symx.snum import cos, sin, sqrt
+
+        dims, tgt = SV_SHAPES[cx.choose('shape', len(SV_SHAPES))]
+        N = int(np.prod(dims))
+        qs = [cirq.LineQid(i, dimension=dd) for i, dd in enumerate(dims)]
+        d = dims[tgt]
+        other = 1 - tgt
+        split = bool(cx.choose('split', 2))
+        if not split:
+            psi = np.asarray(EM.sym_tensor(cx, dims, 'A'), dtype=object if cx.mode != 'concrete' else complex)
+        else:
+            # the product-state container factors the register after the reset (pivot search, norms): the input must
+            # be normalised.  Families: rational magnitudes on EVERY level (menu) with SYMBOLIC phases on every level;
+            # 0 = product state, 1 = entangled state sum_j s_j |j mod d0, j mod d1>
+            fam = cx.choose('family', 2)
+            a = None
+            b = [cx.real(f'b{i}', -1.0, 1.0) for i in range(4)]
+            MAGS = {2: [(0.6, 0.8), (0.8, 0.6)], 3: [(2 / 3, 1 / 3, 2 / 3), (1 / 3, 2 / 3, 2 / 3)], 4: [(0.5, 0.5, 0.5, 0.5), (0.1, 0.7, 0.5, 0.5)]}
+            mi = cx.choose('magnitudes', 2)
+
+            def unit(dd, _a, ph):
+                return [MAGS[dd][mi][j] * D.ph(ph[j]) for j in range(dd)]
+
+            psi = np.empty(dims, dtype=object)
+            if fam == 0:
+                u0 = unit(dims[0], a, b)
+                u1 = unit(dims[1], a, b[::-1])
+                for i in range(dims[0]):
+                    for j in range(dims[1]):
+                        psi[i, j] = u0[i] * u1[j]
+            else:
+                dm_ = max(dims)
+                s_ = unit(dm_, a, b)
+                psi[:] = 0
+                for j in range(dm_):  # the pairs (j mod d0, j mod d1), j < max(d0, d1), are distinct basis states
+                    psi[j % dims[0], j % dims[1]] = s_[j]
+        prng = make_prng(cx)
+        op = cirq.reset(qs[tgt])
+        sim = cirq.Simulator(seed=prng, dtype=np.complex128, split_untangled_states=split)
+        if split:
+            res = sim.simulate(cirq.Circuit(op), initial_state=_as_state(cx, psi), qubit_order=qs)
+            out = np.asarray(res.final_state_vector, dtype=object).reshape(-1)
+        else:
+            # (the trial result renormalises a final vector whose norm is within 1.5e-8 of 1: the arbitrary,
+            # unnormalised symbolic state is read from the step result instead)
+            steps = list(sim.simulate_moment_steps(cirq.Circuit(op), initial_state=_as_state(cx, psi), qubit_order=qs))
+            out = np.asarray(steps[-1].state_vector(copy=True), dtype=object).reshape(-1)
+        cx.check(len(prng.log) == 1, label='2 qudits: one draw')
+        pvec, k = prng.log[0]
+        tot = total_weight(psi)
+        ws = []
+        for lev in range(d):
+            w = 0
+            for j in range(dims[other]):
+                idx = (lev, j) if tgt == 0 else (j, lev)
+                w = w + psi[idx] * _cj(psi[idx])
+            ws.append(_re(w))
+        exp_p = [w / tot for w in ws]
+        if wrong:
+            exp_p = exp_p[1:] + exp_p[:1]
+        cx.close(np.array(pvec, dtype=object), np.array(exp_p, dtype=object), label=f'dims={dims} target={tgt} split={split}: branch probabilities == marginal of the reset qudit')
+        pk = ws[k] / tot
+        r = sqrt(pk) if cx.mode != 'concrete' else np.sqrt(pk)
+        Kf = _embed_dims(D.kraus_reset(d)[k], [tgt], dims)
+        vk = _matmul(Kf, np.asarray(psi, dtype=object).reshape(N, 1)).reshape(-1)
+        cx.close(out * r, vk, label=f'dims={dims} target={tgt} split={split}: final state * sqrt(p_k) == (K_k on the target) psi')
+
+    obs.append(Obligation('trajectory.qudit_reset_2q', qreset2_body, twin=lambda cx: qreset2_body(cx, wrong=True), expected=(ZeroDivisionError,), opts={'weight': 10, 'vc_timeout_ms': 60000}, desc='cirq.Simulator.simulate(reset of one qudit of a 2-qudit register, dims (3,2) / (2,3); thorough also (3,3), (4,2)), scripted generator; split_untangled_states off: ARBITRARY symbolic 2-qudit state (all amplitudes symbolic, entangled in general); on: normalised product and entangled families with symbolic angles and phases: requested probabilities == marginal of the reset qudit, final state * sqrt(p_k) == (|0><k| on the target) psi'))
+    return obs
+
+
+def _sup_of(ks):
+    """superoperator (row-major vec) sum_k w_k K (x) conj(K) of a Kraus list (or weighted list [(w, K)]), explicit loops"""
+    tot = None
+    for K in ks:
+        w_, K = K if isinstance(K, tuple) else (1, K)
+        K = np.asarray(K, dtype=object)
+        t = _kron(K, _conj(K)) * w_
+        tot = t if tot is None else tot + t
+    return tot
+
+
+def _choi_from_sup(S, d):
+    """choi[a*d+b, c*d+e] = sum_k K[a,b] conj(K[c,e]) = sup[a*d+c, b*d+e]"""
+    S = np.asarray(S, dtype=object)
+    out = np.empty((d * d, d * d), dtype=object)
+    for a, b, c, e in itertools.product(range(d), repeat=4):
+        out[a * d + b, c * d + e] = S[a * d + c, b * d + e]
+    return out
+
+
+def _moment_obligations(tier):
+    import cirq
+
+    obs = []
+    CH = {m[0]: m for m in channel_menu()}
+    q = cirq.LineQubit.range(3)
+
+    def spec(cx, kind, *where):
+        """(operation, documented Kraus list, qubit indices in the ORDER OF THE OPERATION)"""
+        if kind in CH and kind != 'X**t':
+            name, npar, build, doc = CH[kind]
+            ps = [cx.real(f'{kind[:2]}{where[0]}_{i}', 0.0, 1.0) for i in range(npar)]
+            if kind in ('depolarize', 'bit_flip', 'phase_flip'):
+                # documented as a MIXTURE: weights stay polynomial (no sqrt(p) * sqrt(p) for the solver to undo)
+                return build(*ps).on(q[where[0]]), [(w_, np.asarray(u_, dtype=object)) for w_, u_ in _doc_mixture(kind, ps)], list(where)
+            return build(*ps).on(q[where[0]]), [(1, k_) for k_ in doc(*ps)], list(where)
+        if kind == 'H':
+            return cirq.H(q[where[0]]), [(1, D.H(1.0))], list(where)
+        if kind == 'X**t':
+            t = cx.real(f't{where[0]}', -4.0, 4.0)
+            return cirq.X(q[where[0]]) ** t, [(1, D.X(t))], list(where)
+        if kind == 'CX**t':
+            t = cx.real(f'u{where[0]}{where[1]}', -4.0, 4.0)
+            return cirq.CNOT(q[where[0]], q[where[1]]) ** t, [(1, D.CX(t))], list(where)
+        if kind == 'CNOT':
+            return cirq.CNOT(q[where[0]], q[where[1]]), [(1, D.CX(1.0))], list(where)
+        raise KeyError(kind)
+
+    def moment_doc(specs, order, wrong=False):
+        """documented description of a moment as weighted operators [(w, F)] (map: rho -> sum w F rho F^dag): one per
+        combination, tensor product in the order `order` (list of qubit indices = sorted qubits), each factor
+        embedded at the positions of its operation's qubits"""
+        n = len(order)
+        lists = []
+        for si, (_op, ks, where) in enumerate(specs):
+            ks = [(w_, np.asarray(k, dtype=object)) for w_, k in ks]
+            if wrong and si == len(specs) - 1:
+                ks = [(ks[0][0], perturb(ks[0][1]))] + ks[1:]
+            lists.append([(w_, EM.embed_matrix(k, [order.index(w) for w in where], n)) for w_, k in ks])
+        out = []
+        for combo in itertools.product(*lists):
+            wt, F = combo[0]
+            for w_, G in combo[1:]:
+                F = _matmul(F, G)
+                wt = wt * w_
+            out.append((wt, F))
+        return out
+
+    # (ops stored in NON-sorted qubit order; channels mixed with unitaries; one- and two-qubit operations)
+    M2 = [
+        [('H', 1), ('amplitude_damp', 0)],
+        [('X**t', 1), ('depolarize', 0)],
+        [('amplitude_damp', 1), ('bit_flip', 0)],
+        [('CX**t', 1, 0)],
+        [('X**t', 1), ('H', 0)],
+        [('phase_damp', 2), ('X**t', 0)],
+    ] + ([[('generalized_amplitude_damp', 1), ('X**t', 0)], [('reset', 1), ('phase_flip', 0)]] if tier != 'quick' else [])
+    M3 = [[('CNOT', 2, 0), ('amplitude_damp', 1)], [('phase_damp', 2), ('CX**t', 1, 0)]] + ([[('bit_flip', 2), ('H', 1), ('amplitude_damp', 0)]] if tier != 'quick' else [])
+
+    def moment_body(cx, shapes, wrong=False, with_sim=True):
+        sh = shapes[cx.choose('moment', len(shapes))]
+        specs = [spec(cx, *s_) for s_ in sh]
+        moment = cirq.Moment(*[s_[0] for s_ in specs])
+        order = sorted({w for s_ in specs for w in s_[2]})
+        qs = [q[i] for i in order]
+        n = len(order)
+        dN = 2**n
+        tag = '+'.join(s_[0] for s_ in sh)
+        doc = moment_doc(specs, order, wrong=wrong)
+        S = _sup_of(doc)
+        got = cirq.kraus(moment)
+        cx.check(len(got) == len(doc), label=f'Moment({tag}): number of Kraus operators = product of the operations\' counts')
+        cx.close(_sup_of(got), S, label=f'Moment({tag}): cirq.kraus(moment) describes the tensor product in sorted-qubit order')
+        cx.close(moment._superoperator_(), S, label=f'Moment({tag})._superoperator_')
+        cx.close(cirq.operation_to_superoperator(moment), S, label=f'operation_to_superoperator(Moment({tag}))')
+        cx.close(cirq.operation_to_choi(moment), _choi_from_sup(S, dN), label=f'operation_to_choi(Moment({tag}))')
+        cx.close(cirq.Circuit(moment)._superoperator_(), S, label=f'Circuit(Moment({tag}))._superoperator_')
+        if len(doc) == 1:
+            cx.check(cirq.has_unitary(moment) is True, label=f'Moment({tag}) of unitary operations has a unitary')
+            cx.close(cirq.unitary(moment), doc[0][1], label=f'cirq.unitary(Moment({tag})) == tensor product in sorted-qubit order')
+            cx.close(np.asarray(got[0], dtype=object), doc[0][1], label=f'cirq.kraus(Moment({tag})) of a unitary moment is its unitary')
+        if with_sim:
+            rho = _sym_density(cx, dN)
+            st = _inject_dm_state(cx, cirq, rho, qs)
+            res = cirq.DensityMatrixSimulator(dtype=np.complex128).simulate(cirq.Circuit(moment), initial_state=st, qubit_order=qs)
+            exp = None
+            for w_, F in doc:
+                t_ = _matmul(_matmul(F, rho), dag(F)) * w_
+                exp = t_ if exp is None else exp + t_
+            cx.close(np.asarray(res.final_density_matrix, dtype=object).reshape(dN, dN), exp, label=f'DensityMatrixSimulator(Moment({tag})) on a symbolic density matrix == documented Kraus set of the moment')
+
+    obs.append(Obligation('descriptions.moment_2q', lambda cx: moment_body(cx, M2), twin=lambda cx: moment_body(cx, M2, wrong=True), opts={'weight': 8}, desc='moments over two qubits whose operations are stored in NON-sorted qubit order (H(q1)+amplitude_damp(q0), X**t(q1)+depolarize(q0), two channels, CNOT**t(q1,q0), unitary pairs, non-adjacent qubits), all channel and gate parameters symbolic: cirq.kraus(moment) (count and map), Moment._superoperator_, operation_to_superoperator / operation_to_choi of the moment, Circuit(moment)._superoperator_ equal the tensor product of the documented Kraus operators in sorted-qubit order; unitary moments agree with cirq.unitary(moment); DensityMatrixSimulator on an arbitrary symbolic density matrix agrees'))
+    obs.append(Obligation('descriptions.moment_3q', lambda cx: moment_body(cx, M3, with_sim=(tier != 'quick')), twin=lambda cx: moment_body(cx, M3, wrong=True, with_sim=(tier != 'quick')), opts={'weight': 10}, desc='the same for three-qubit moments mixing a two-qubit gate on non-adjacent / reversed qubits with a one-qubit channel (CNOT(q2,q0)+amplitude_damp(q1), phase_damp(q2)+CNOT**t(q1,q0)); 64x64 superoperators; simulator comparison in the thorough tier'))
+
+    # ---- circuits: moments are expanded to the circuit's qubits before composing ---------------------------------------
+    CIRC = [
+        [[('amplitude_damp', 1)], [('H', 1), ('bit_flip', 0)]],
+        [[('depolarize', 1)], [('CX**t', 1, 0)]],
+        [[('X**t', 2)], [('amplitude_damp', 0)]],
+    ] + ([[[('phase_damp', 0)], [('CNOT', 1, 0), ('X**t', 2)]]] if tier != 'quick' else [])
+
+    def circuit_body(cx, wrong=False):
+        ci = cx.choose('circuit', len(CIRC))
+        mspecs = [[spec(cx, *s_) for s_ in m_] for m_ in CIRC[ci]]
+        circuit = cirq.Circuit([cirq.Moment(*[s_[0] for s_ in ms]) for ms in mspecs])
+        order = sorted({w for ms in mspecs for s_ in ms for w in s_[2]})
+        qs = [q[i] for i in order]
+        n = len(order)
+        dN = 2**n
+        S = None
+        rho = _sym_density(cx, dN)
+        exp = rho
+        for mi, ms in enumerate(mspecs):
+            doc = moment_doc(ms, order, wrong=(wrong and mi == 0))
+            Sm = _sup_of(doc)
+            S = Sm if S is None else _matmul(Sm, S)
+            nxt = None
+            for w_, F in doc:
+                t_ = _matmul(_matmul(F, exp), dag(F)) * w_
+                nxt = t_ if nxt is None else nxt + t_
+            exp = nxt
+        cx.close(circuit._superoperator_(), S, label=f'Circuit #{ci}: _superoperator_ == ordered product of the moments\' superoperators on ALL circuit qubits (sorted order)')
+        st = _inject_dm_state(cx, cirq, rho, qs)
+        res = cirq.DensityMatrixSimulator(dtype=np.complex128).simulate(circuit, initial_state=st, qubit_order=qs)
+        cx.close(np.asarray(res.final_density_matrix, dtype=object).reshape(dN, dN), exp, label=f'Circuit #{ci}: DensityMatrixSimulator on a symbolic density matrix == moment-by-moment documented Kraus maps')
+
+    obs.append(Obligation('descriptions.circuit_expanded', circuit_body, twin=lambda cx: circuit_body(cx, wrong=True), opts={'weight': 8}, desc='Circuit._superoperator_ of multi-moment circuits whose moments touch only part of the qubits (expanded with identities to the other, earlier-sorted or later-sorted, qubits) and store operations in non-sorted order, symbolic parameters: equals the ordered product of the documented moment superoperators on the sorted circuit qubits, and the DensityMatrixSimulator on an arbitrary symbolic density matrix gives the corresponding map'))
     return obs
 
 
@@ -504,7 +882,10 @@ LEVEL = (
     'the entire density tensor handed to cirq.apply_channel are symbolic; DensityMatrixSimulator runs on circuits mixing unitaries with every library '
     'channel; z3 decides entry-wise equality with sum_k K rho K^dag built from the documented Kraus operators, the equivalence of the kraus / mixture / '
     'superoperator / Choi descriptions, the noise-model semantics, and (with a scripted random generator whose outcomes are solver-chosen) that '
-    'state-vector trajectories select branches with the documented probabilities and produce K_k psi / sqrt(w_k).'
+    'state-vector trajectories select branches with the documented probabilities and produce K_k psi / sqrt(w_k), including resets of qutrits / '
+    'ququarts with every level populated (alone and inside 2-qudit registers, product-state container on/off) on both simulators; Kraus / '
+    'superoperator / Choi descriptions of moments with non-sorted operations and of multi-moment circuits equal the documented tensor product in '
+    'sorted-qubit order and agree with cirq.unitary and with the DensityMatrixSimulator on a symbolic density matrix.'
 )
 
 
@@ -516,6 +897,8 @@ def main(tier, seed=0, replay=None, only=None, procs=None):
         'gate_parameter_box': [-4, 4],
         'density_tensor_entries_box': [-1, 1],
         'tolerance': 1e-7,
-        'outside': ['generalized_amplitude_damp inside multi-op DensityMatrixSimulator circuits (products of several sqrt atoms: NRA query does not finish; the channel itself is covered by apply_channel.* and descriptions.*)', 'choi_to_kraus / superoperator_to_kraus (eigh)', 'thermal and device-derived noise models (scipy expm)', 'symbolic initial density matrices for the simulator (validation uses eigvalsh)', 'complex64', 'trajectories on more than one qubit'],
+        'qudit_reset': 'ResetChannel(d) / cirq.reset: one qudit d = 2, 3, 4 with all d complex amplitudes symbolic (box [-1, 1], unnormalised: probabilities are compared with |psi_k|^2 / <psi|psi>), via act_on(StateVectorSimulationState) and Simulator.simulate; two-qudit registers (3,2) / (2,3) (thorough also (3,3), (4,2)), either qudit reset: split_untangled_states off = arbitrary symbolic 2-qudit tensor, on = normalised product and entangled families with rational magnitudes on every level (menu of 2) and symbolic phases on every level; density-matrix side: arbitrary symbolic density matrix (real diagonal in [0,1]; unit trace made syntactic for the product-state container) over (3), (4), (3,2), (2,3) (thorough also (3,3), (2,4)) through apply_channel / act_on / DensityMatrixSimulator / SimulationProductState',
+        'moment_descriptions': 'menu of 6 (thorough 8) two-qubit-register moments and 2 (3) three-qubit moments with operations stored in non-sorted qubit order, menu of 3 (4) multi-moment circuits with partial moments; all channel probabilities in [0,1] and gate exponents in [-4,4] symbolic; simulator comparison on an arbitrary symbolic density matrix (2-qubit registers; 3-qubit in thorough); the ORDER of the Kraus operators returned for a moment is not part of the claim (compared as maps + count)',
+        'outside': ['generalized_amplitude_damp inside multi-op DensityMatrixSimulator circuits (products of several sqrt atoms: NRA query does not finish; the channel itself is covered by apply_channel.* and descriptions.*)', 'choi_to_kraus / superoperator_to_kraus (eigh)', 'thermal and device-derived noise models (scipy expm)', 'symbolic initial density matrices for the simulator (validation uses eigvalsh)', 'complex64', 'trajectories of channels other than reset on more than one qubit', 'symbolic MAGNITUDES of a normalised 2-qudit state with split_untangled_states=True (pivot search / norms of factor_state_vector over trigonometric amplitudes: NRA query does not finish; magnitudes are enumerated, phases symbolic)', 'library channels other than ResetChannel take no dimension argument (none to cover)', 'moments / circuits over qudits (Moment._kraus_ is qubit-only)'],
     }
     return run_check(PID, tier, 'checks.C09', SHIMS, LEVEL, BASE_ASSUMPTIONS, bounds, seed=seed, replay=replay, only=only, procs=procs)
